@@ -395,6 +395,7 @@ class Ctx:
         'vfit': ('GenV', ['t_weighted_optimize', 't_optimize']),
         'vaff': ('GenV', ['t_get_transformation']),
         'fm': ('GenFM', ['t_loop']),
+        'fmtumble': ('GenFM', ['t_tumble']),
         # property clauses about the kernels as compiled from source (compose bridges with the model's theorems)
         'ksrccrop': ('GenK', []),
         'ksrceval': ('GenK', []),
